@@ -70,3 +70,25 @@ Theorem C02_deb_triggers_source_is_the_model :
   src_deb_triggers_translated = true /\ forall i, src_deb_triggers i = deb_triggers i.
 Proof. split; [reflexivity | intros i; reflexivity]. Qed.
 Print Assumptions C02_deb_triggers_source_is_the_model.
+
+(* ---- archlinux: the (key, value) pairs of .PKGINFO, translated from arch/arch.go on every run (Gen/PkginfoFields.v) ---- *)
+From NfpmV Require Import Proofs.PkginfoProofs Proofs.StrFnsProofs Gen.ArchPkgver Gen.PkginfoFields.
+
+Lemma replace_byte_nl_sp s : replace_byte x0a x20 s = replace_nl s (B " ").
+Proof. induction s as [|b s IH]; [reflexivity|]. cbn [replace_byte replace_nl]. rewrite IH. destruct (beq b x0a); reflexivity. Qed.
+
+Lemma src_arch_defaultStr_is_dflt a d : src_arch_defaultStr a d = dflt a d.
+Proof. unfold src_arch_defaultStr, dflt. destruct (nonempty a); reflexivity. Qed.
+
+(* for all settings, architecture tables, sizes, build dates and backup lists: the pairs the SOURCE writes - the map handed
+   to writeKVPairs in the order of its sorted keys, then one pair per replaces / conflict / provides / depend / backup
+   value, empty values skipped - are the model's arch_info_fields, the list C02_arch_pkginfo_reads_back is about *)
+Theorem C02_arch_pkginfo_fields_source_is_the_model : forall archtab i size bd backups,
+  src_arch_info_fields_translated = true /\
+  src_arch_info_fields i (translate_arch archtab (gs i "archlinux.arch") (gs i "arch")) size bd backups
+  = arch_info_fields archtab i size bd backups.
+Proof.
+  intros. split; [reflexivity|]. unfold src_arch_info_fields, arch_info_fields.
+  rewrite !src_arch_defaultStr_is_dflt, replace_byte_nl_sp, src_arch_pkgver_is_model. reflexivity.
+Qed.
+Print Assumptions C02_arch_pkginfo_fields_source_is_the_model.
